@@ -19,11 +19,7 @@ func FuzzExecute(f *testing.F) {
 	f.Add(uint16(1<<3|1<<4), []byte{0x51}, []byte{0xb1, 0xb2}, uint8(1))
 	f.Add(uint16(1), []byte{0x01, 0x51}, []byte{0xa9, 0x14, 0xda, 0x17, 0x45, 0xe9, 0xb5, 0x49, 0xbd, 0x0b, 0xfa, 0x1a, 0x56, 0x99, 0x71, 0xc7, 0x7e, 0xba, 0x30, 0xcd, 0x5a, 0x4b, 0x87}, uint8(0))
 	f.Fuzz(func(t *testing.T, flags uint16, u, l []byte, kind uint8) {
-		// post-Genesis there is no element-size limit: keep such programs short (20 doublings at most) so that the
-		// search looks for panics, not for legitimate gigabyte allocations (out of model, DESIGN.md 11.5)
-		if flags&(1<<14) != 0 && len(u)+len(l) > 40 {
-			flags &^= 1 << 14
-		}
+		flags = uint16(fuzzNormFlags(uint64(flags), u, l))
 		if len(u) > 600 || len(l) > 600 {
 			return
 		}
